@@ -44,6 +44,15 @@ type FuncSpec struct {
 	Where      string
 	Trusted    bool
 	Props      map[string]bool
+	Callsites  []*CallsiteClause
+}
+
+// CallsiteClause: `callsite[Cxx] <callee> : <expr>` — a ghost assertion obliged in this function at every
+// call of <callee> (contract key or full external name), over the callee's parameter names (arg0.. for
+// externals) and this function's parameters; fresh() is relative to this function's entry.
+type CallsiteClause struct {
+	Callee string
+	Cl     *Clause
 }
 
 type SpecFn struct {
@@ -72,7 +81,7 @@ type Specs struct {
 	Scan    []string // mechanical scan hits for assume/trusted
 }
 
-var clauseRe = regexp.MustCompile(`^(requires|ensures|invariant|decreases|nopanic|assigns|pure|loop|func|spec|order-independent|trusted|table|row|exact|except)\b(\[[A-Z0-9, ]*\])?\s*(.*)$`)
+var clauseRe = regexp.MustCompile(`^(requires|ensures|invariant|decreases|callsite|nopanic|assigns|pure|loop|func|spec|order-independent|trusted|table|row|exact|except)\b(\[[A-Z0-9, ]*\])?\s*(.*)$`)
 
 func parseProps(s string) []string {
 	s = strings.Trim(s, "[]")
@@ -247,6 +256,22 @@ func (sp *Specs) loadFile(path string) {
 				}
 				curLoop.Decreases = cl
 			}
+		case "callsite":
+			if cur == nil {
+				sp.Errors = append(sp.Errors, where+": callsite outside func")
+				continue
+			}
+			j := strings.Index(rest, " : ")
+			if j < 0 {
+				sp.Errors = append(sp.Errors, where+": callsite needs '<callee> : <expr>'")
+				continue
+			}
+			cl := &Clause{Kind: kw, Props: props, Text: strings.TrimSpace(rest[j+3:]), Where: where}
+			last = cl
+			for _, p := range props {
+				cur.Props[p] = true
+			}
+			cur.Callsites = append(cur.Callsites, &CallsiteClause{Callee: strings.TrimSpace(rest[:j]), Cl: cl})
 		case "except":
 			// except <obligation name suffix>, ... : <reason>   (obligations of this function that are NOT claimed)
 			if cur != nil {
@@ -308,6 +333,9 @@ func (sp *Specs) loadFile(path string) {
 	// parse expressions
 	for _, fs := range sp.Funcs {
 		all := append(append([]*Clause{}, fs.Requires...), fs.Ensures...)
+		for _, cs := range fs.Callsites {
+			all = append(all, cs.Cl)
+		}
 		for _, l := range fs.Loops {
 			all = append(all, l.Invariants...)
 			if l.Decreases != nil {
@@ -1149,6 +1177,28 @@ var specUFs = map[string]builtinSig{
 	"splitpart":  {[]Sort{SStr, SStr, SInt}, SStr},
 }
 
+// lookupType: a named type of the package of the function under contract
+func (e *specEnv) lookupType(name string) types.Type {
+	f := e.c.F
+	if e.callee != nil {
+		f = e.callee
+	}
+	for f.Parent() != nil {
+		f = f.Parent()
+	}
+	pkg := f.Pkg
+	if pkg == nil && f.Origin() != nil {
+		pkg = f.Origin().Pkg
+	}
+	if pkg == nil {
+		return nil
+	}
+	if tn, ok := pkg.Pkg.Scope().Lookup(name).(*types.TypeName); ok {
+		return tn.Type()
+	}
+	return nil
+}
+
 func (e *specEnv) lookupGlobal(name string) *ssa.Global {
 	f := e.c.F
 	if e.callee != nil {
@@ -1230,6 +1280,24 @@ func (e *specEnv) evalCall(x *SX) (Val, types.Type, error) {
 		return e.eval(x.Args[i])
 	}
 	switch x.Name {
+	case "unbox", "isType":
+		// unbox(x, T) / isType(x, T): x is an interface value, T a named type of the function's package
+		a, _, err := arg(0)
+		if err != nil {
+			return Val{}, nil, err
+		}
+		if a.S != SAny || len(x.Args) < 2 || x.Args[1].Op != "ident" {
+			return Val{}, nil, fmt.Errorf("%s(x, T): x must be an interface value and T a type name", x.Name)
+		}
+		nt := e.lookupType(x.Args[1].Name)
+		if nt == nil {
+			return Val{}, nil, fmt.Errorf("%s: unknown type %s", x.Name, x.Args[1].Name)
+		}
+		test, payload, ps := c.anyTest(a.T, nt)
+		if x.Name == "isType" {
+			return Val{T: test, S: SBool}, types.Typ[types.Bool], nil
+		}
+		return Val{T: payload, S: ps, GT: nt}, nt, nil
 	case "old":
 		saved := e.st
 		e.st = e.old
